@@ -420,7 +420,8 @@ def extra_units():
     iff any of its tasks wrote a molecule, and reports the sum of all its tasks (C05's unit, re-verified under this property)"""
     from contracts import c05
     from pyvc.units import share
-    return [share(c05.run_tagging_tasks, PROP)]
+    # "... and contains every record": a fault-free multiprocess run loses no contig (job list of C05)
+    return [share(c05.run_tagging_tasks, PROP)] + [share(u, PROP) for u in c05.JOB_UNITS]
 
 
 # ------------------------------------------------------------------------------ run_multiome_tagging: a stale success marker
